@@ -249,9 +249,10 @@ func Substring(ctx *expr.Context, input system.Collection, args ...expr.Expressi
 	}
 
 	var result system.String
-	if substringLength > -1 && int(start)+int(substringLength) < len(chars) {
-		// Substring will not go out of bounds (the sum is computed in int:
-		// start+substringLength can overflow an int32)
+	if substringLength > -1 && int64(start)+int64(substringLength) < int64(len(chars)) {
+		// Substring will not go out of bounds (the sum is computed in int64:
+		// start+substringLength can overflow an int32, and int is 32 bits wide
+		// on some platforms)
 		result = system.String(chars[int(start) : int(start)+int(substringLength)])
 	} else {
 		result = system.String(chars[start:])
